@@ -196,7 +196,7 @@ Pos(o, t, res, v) ==
 Rem(o, some, v, res) ==
   LET ob == objs[o]
       bk == BaseKind(ob.kind)
-      pv == IF bk \in SeekKinds /\ NLe(CtrOf(ob.st), MaxBlocks(bk)) THEN NSub(MaxBlocks(bk), CtrOf(ob.st)) ELSE <<>>
+      pv == IF bk \in SeekKinds /\ NLe(CtrOf(ob.st), MaxBlocks(bk, ob.bs)) THEN NSub(MaxBlocks(bk, ob.bs), CtrOf(ob.st)) ELSE <<>>
   IN  /\ Live(o)
       /\ last' = [Lst("rem", o, res, "ok") EXCEPT !.some = some, !.v = v, !.pv = pv,
                                                   !.fits = (bk \in SeekKinds)]
